@@ -297,6 +297,17 @@ class SymMap(Sym):
         self.size = size
 
 
+class SymIte(Sym):
+    """c ? a : b for values of any kind (produced by merging a simple conditional assignment)"""
+
+    __slots__ = ("c", "a", "b")
+
+    def __init__(self, c, a, b):
+        self.c = c
+        self.a = a
+        self.b = b
+
+
 def is_sym(v) -> bool:
     return isinstance(v, Sym)
 
